@@ -243,6 +243,14 @@ def run(ctx):
     ctx.rule("C12.R4", "list comparison returns the first non-Equal element ordering and otherwise compares len(left) with len(right) in that order (a proper prefix is smaller)", floor=2)
     list_compare_rule(ctx, "C12.R4", core)
 
+    # ---------------- R8 no answer from heap identity
+    from rules import c02 as c02_
+    from lib import mir as M_
+    crs_ = [core, ctx.cli, ctx.wasm]
+    cg_ = M_.CallGraph(crs_)
+    local_ = sorted(n_ for n_ in cg_.reachable_from(c02_.EVAL_ROOTS) if n_ in cg_.fns)
+    c02_.run_identity(ctx, cg_, local_, crs_, rid="C12.R8", doc="equality and ordering are answered from the values, never from heap identity: no evaluator-reachable code compares Values or heap pointers by their derived PartialEq/PartialOrd (a same-cell shortcut makes `r .<= r` succeed where `{a: 1} .<= {a: 1}` fails), except equality against the constant null")
+
     # ---------------- R7 the remainder after a lock-step walk
     ctx.rule("C12.R7", "in Value::compare / Value::equals and what they call, the remainder after a lock-step walk is never read from an iterator that was the left side of `by_ref().zip(..)`: zip takes one element from its left side before it sees that the right side is finished, so that remainder is one element short (a longer-by-one left operand would compare Equal)", floor=2)
     from lib import mir as M
